@@ -153,8 +153,11 @@ def gen_step(rng, geo, nmax, Nmax, force_tilt=None, aniso=False):
         st['amp_dtype'] = rng.choice(['int', 'bool', 'float32', 'masked', 'matrix'])
     elif rng.random() < 0.1:
         st['amp_dtype'] = rng.choice(['masked', 'matrix'])      # ndarray subclasses are legal array_like inputs
-    if rng.random() < 0.25 and st['tilt'] != 'fit':
+    t = rng.random()
+    if t < 0.25 and st['tilt'] != 'fit':
         st['plane'] = 'image'                    # the reverse direction: an image-plane wavefront (lentil.Image)
+    elif t < 0.30 and st['tilt'] != 'fit':
+        st['plane'] = 'none'                     # a wavefront that is in no particular plane (lentil.Plane): TypeError
     if rng.random() < 0.2 and st.get('amp_dtype') in (None, 'float32', 'masked', 'matrix'):
         st['amp_scale'] = rng.choice([-13, -9, -9, 6])     # every operation is linear: amplitudes over many decades
     if 'du_form' not in st and rng.random() < 0.1:
@@ -316,8 +319,10 @@ def build_wavefront(lentil, st, geo, lam, tilt=True):
         amp = amp.astype(int)
     elif dt == 'float32' and not np.iscomplexobj(amp):
         amp = amp.astype(np.float32)
-    image = st.get('plane') == 'image'
-    if image:
+    image = st.get('plane') in ('image', 'none')
+    if st.get('plane') == 'none':
+        p = lentil.Plane(amplitude=amp, opd=opd, mask=mask, pixelscale=dx)
+    elif image:
         p = lentil.Image(amplitude=amp, opd=opd, mask=mask, pixelscale=dx)
     else:
         p = lentil.Pupil(amplitude=amp, opd=opd, mask=mask, pixelscale=dx, focal_length=z)
@@ -518,12 +523,12 @@ def _run_inner(c):
                 o3, e3 = call(lentil.propagate_fft, build_wavefront(lentil, st, geo, lam), du_arg, shape=shape,
                               oversample=os_, scratch=buf)
                 r['exact'] = e3 if e3 else np.array(o3.field) / sc_
-            # DFT propagation of the same complex field at the reported wavelength (square pixels only)
-            if iso:
+            # DFT propagation of the same complex field at the reported wavelength
+            if True:
                 w2 = build_wavefront(lentil, st, geo, r['wavelength'])
                 if shape is None:
                     # the full grid may not be a multiple of the oversampling factor: same sampling, oversample 1
-                    d, e4 = call(lentil.propagate_dft, w2, du[0] / os_, shape=tuple(r['N']), oversample=1)
+                    d, e4 = call(lentil.propagate_dft, w2, (du[0] / os_, du[1] / os_), shape=tuple(r['N']), oversample=1)
                 else:
                     d, e4 = call(lentil.propagate_dft, w2, du_arg, shape=shape, oversample=os_)
                 r['dft'] = e4 if e4 else np.array(d.field) / sc_
@@ -540,7 +545,7 @@ def run_impl_hist(c):
     out = {'iso': info['iso'], 'advertised': info.get('advertised'), 'scratch_shape': info.get('scratch_shape'), 'steps': []}
     for r in info['steps']:
         d = {k: r.get(k) for k in ('tilted', 'tilts', 'os', 'N', 'adv1', 'used_scratch', 'err', 'shape', 'wavelength',
-                                   'pixelscale', 'ptype', 'wshape', 'full_err', 'full_wl')}
+                                   'pixelscale', 'ptype', 'wshape', 'wptype', 'full_err', 'full_wl')}
         for k in ('field', 'plain', 'exact', 'dft'):
             if k in r:
                 d[k] = r[k]
@@ -698,6 +703,11 @@ def oracle_hist(c, impl):
                         f'extra fields {[e.get("ntilt", 0) for e in st.get("extra") or []]}) was not refused with '
                         f'NotImplementedError (got {err or "a result"})')
             continue
+        if r.get('wptype') == 0:
+            if err != 'TypeError':
+                return (f'call {k}: a wavefront that is neither in a pupil nor in an image plane (lentil.Plane) was not refused '
+                        f'with TypeError (got {err or "a result"})')
+            continue
         N = r['N']
         if N is None:
             return f'call {k}: neither the full-grid call nor scratch_shape works ({r.get("full_err")})'
@@ -753,13 +763,23 @@ def oracle_hist(c, impl):
                 return f'call {k}: result with a scratch buffer of exactly scratch_shape {r["adv1"]} differs: {msg}'
         else:
             return f'call {k}: scratch_shape raised'
+        dx, z = float(Fraction(geo['dx'])), float(Fraction(geo['z']))
         if not iso:
-            continue
-        # the reported wavelength gives alpha = 1/N
-        dx, du, z = float(Fraction(geo['dx'])), float(Fraction(geo['du'][0])), float(Fraction(geo['z']))
-        inv_alpha = r['wavelength'] * z * os_ / (dx * du)
-        if N[0] != N[1] or not rel_close(inv_alpha, N[0], 1e-12):
-            return (f'call {k}: reported wavelength {r["wavelength"]!r} gives 1/alpha = {inv_alpha!r}, the grid is {N}')
+            # anisotropic output pixels: one wavelength serves both axes only if N0 dx du0 = N1 dx du1 (true whenever the
+            # ideal grid is whole on both axes, theorem C09_fft_equals_dft_anisotropic); otherwise only the shape and
+            # refusal behaviour above and the model tie are checked (the documented restriction)
+            inv = [r['wavelength'] * z * os_ / (dx * float(Fraction(geo['du'][a]))) for a in (0, 1)]
+            if not (rel_close(inv[0], N[0], 1e-12) and rel_close(inv[1], N[1], 1e-12)):
+                if not (rel_close(inv[0], N[0], 1e-12) or rel_close(inv[1], N[1], 1e-12)):
+                    return (f'call {k}: reported wavelength {r["wavelength"]!r} gives 1/alpha = {inv} - neither axis of the '
+                            f'grid {N}')
+                continue
+        else:
+            # the reported wavelength gives alpha = 1/N
+            du = float(Fraction(geo['du'][0]))
+            inv_alpha = r['wavelength'] * z * os_ / (dx * du)
+            if N[0] != N[1] or not rel_close(inv_alpha, N[0], 1e-12):
+                return (f'call {k}: reported wavelength {r["wavelength"]!r} gives 1/alpha = {inv_alpha!r}, the grid is {N}')
         # FFT == DFT at the reported wavelength (pupil no larger than the grid)
         n, m = pupil_dims(st)
         if n > N[0] or m > N[1]:
